@@ -40,6 +40,33 @@ func scenarioC16(r *Run) {
 	g.UP4 = true
 	g.PrecBoundary = true
 	g.DrawAvoid()
+	if r.Ch.Choose(40, "long-history") == 1 {
+		// a long history: more sessions in turn, each behind a gNB of its own, than an
+		// 8-bit tunnel peer id has values (ids are handed out first-in-first-out, so
+		// the n-th peer gets an id the switch has never seen)
+		n := 256 + r.Ch.Choose(60, "long-n")
+		i := 0
+		for ; i < n && r.AgentAlive() && len(r.W.P4.Invalid) == 0; i++ {
+			s := g.Session(p, SessShape{TEIDChoose: r.Ch.Choose(2, "ch") == 1})
+			*s.FAR(2) = FARSpec{ID: 2, Action: ActFORW, DstIface: IfAccess, HasFwd: true, HasOHC: true, TEID: uint32(5000 + i), PeerIP: ip4(fmt.Sprintf("198.18.%d.%d", 2+i/200, 1+i%200))}
+			if res := p.Establish(s); !res.Accepted {
+				break
+			}
+			r.Accepted++
+			if dr := p.Delete(s); dr.Accepted {
+				delete(p.Sessions, s.CPSEID)
+			} else {
+				break
+			}
+		}
+		r.Op("%d sessions in turn, each behind a gNB of its own", i)
+		r.Probe("long-history-of-distinct-gnbs")
+		r.Probe(fmt.Sprintf("long-history-sessions>=%d", i/50*50))
+		r.Skel("long-history")
+		reportInvalid(r, "C16")
+		r.CheckNoPanics("C16")
+		return
+	}
 	inc := r.Inc
 	restarted := false
 	for k := 0; k < 3+r.Ch.Choose(10, "nops") && r.AgentAlive(); k++ {
